@@ -441,6 +441,26 @@ func (s *Server) getObjectHandler(w http.ResponseWriter, r *http.Request) {
 		return
 	}
 
+	if len(storageRanges) > 0 {
+		// GetObject skips the ranges that select no byte of the object (a range set is
+		// satisfiable if at least one of its ranges is) and returns one reader per
+		// remaining range: describe exactly those ranges in the response.
+		satisfiableRanges := make([]storage.ByteRange, 0, len(storageRanges))
+		for _, byteRange := range storageRanges {
+			if byteRange.IsSatisfiable(object.Size) {
+				satisfiableRanges = append(satisfiableRanges, byteRange)
+			}
+		}
+		storageRanges = satisfiableRanges
+		if len(readers) != len(storageRanges) {
+			for _, reader := range readers {
+				reader.Close()
+			}
+			handleError(fmt.Errorf("storage returned %d readers for %d satisfiable ranges", len(readers), len(storageRanges)), w, r)
+			return
+		}
+	}
+
 	contentType := "application/octet-stream"
 	if object.ContentType != nil {
 		contentType = *object.ContentType
